@@ -32,13 +32,19 @@ fn emit(out: &mut dyn Write, bits: &[bool], w: usize, all: bool) {
     match r {
         Ok((path, px, uni)) => {
             writeln!(out, "O path {} {} {} => ok", w, packed, path).unwrap();
+            // the Lean model of path() (edge graph, Hierholzer walks with the splice bookkeeping, compress_path)
+            // must return the very same segments
+            writeln!(out, "M pathm {} {} => {}", w, packed, path).unwrap();
             if all {
                 let pxs = if px.is_empty() { "-".to_string() } else { px.iter().map(|(x, y)| format!("{}:{}", x, y)).collect::<Vec<_>>().join(",") };
                 writeln!(out, "P pixels {} {} => {}", w, packed, pxs).unwrap();
                 writeln!(out, "P unicode {} {} => {}", w, packed, hex(uni.as_bytes())).unwrap();
             }
         }
-        Err(_) => writeln!(out, "O oracle fail:panic:path:{}:{} => ok", w, packed).unwrap(),
+        Err(_) => {
+            writeln!(out, "O oracle fail:panic:path:{}:{} => ok", w, packed).unwrap();
+            writeln!(out, "M pathm {} {} => panic", w, packed).unwrap();
+        }
     }
 }
 
